@@ -141,9 +141,9 @@ META.update({
         note="merge_dicts on trees proved (union of paths); the composition in gen.py and `iff` / idempotence over it bounded only",
     ),
     "C13": dict(
-        technique="contract-based deductive verification of _resolve_json_pointers (glob resolution: nested loops, comprehensions over dict keys and index ranges, union-typed documents; AST->VC, z3+cvc5); " + _B + " for the jsonpointer / jsonpatch compositions",
+        technique="contract-based deductive verification of _resolve_json_pointers (glob resolution: nested loops, comprehensions over dict keys and index ranges, union-typed documents; AST->VC, z3+cvc5) and of RunGeneratorResult.new_json_fragment_files (== sequential chain per file, relative to the opaque apply_json_fragment) + frame lemmas step_frame / chain_frame (generators of other files leave a file's planned entry alone); " + _B + " for the jsonpointer / jsonpatch compositions",
         text="exploration + proved link: _resolve_json_pointers is proved to return exactly the existing paths whose parts match the pattern "
-             "parts, in document order (relative to fnmatch / JsonPointer). Everything else is bounded: fragment confinement, idempotence, patch round trip, filters return sub-documents, inputs unmodified, chaining = sequential "
+             "parts, in document order (relative to fnmatch / JsonPointer); new_json_fragment_files is proved equal to the sequential chain of its generators per file, and a chain none of whose generators names a file leaves that file's entry unchanged (lemma). Everything else is bounded: fragment confinement, idempotence, patch round trip, filters return sub-documents, inputs unmodified, chaining = sequential "
              "application, over all key-presence shapes of one schema (keys with '/', '~', '|', '*') x 342 pointer lists (strided) + random. "
              "1 fixed (pointer escaping), 1 known finding (sorted patch breaks array ops).",
         note="apply_json_fragment / apply_acl_filters / make_patch: library compositions, bounded only",
